@@ -417,6 +417,9 @@ class Emitter:
                 return '((char*)&__VERIF_unmodelled_virtual)'
             name = s.ref_func(name); return '((char*)&F_%s)' % cname(name)
         s.need_globals.setdefault(name, True)
+        g = s.mod.globals.get(name)
+        if g is not None and 'thread_local' in g['attrs'] and g['init'] is not None:
+            return '((char*)&g_%s[__verif_tid])' % cname(name)       # one copy per modelled thread; the harness says which thread is running
         return '((char*)&g_%s)' % cname(name)
     def ref_func(s, name):
         if name in s.mod.aliases:
@@ -934,9 +937,12 @@ def emit_global(em, name):
             return '{{' + ', '.join(init(et, ev) for et, ev in v[1]) + '}}'
         return em.val(t, v)
     ct = em.cty(t)
-    decl = 'extern %s %s;' % (ct, cn)
+    tl = 'thread_local' in g['attrs']
+    decl = 'extern %s %s%s;' % (ct, cn, '[VERIF_NTHREADS]' if tl else '')
     em.in_global_init = True
-    try: defn = '%s %s = %s;' % (ct, cn, init(t, g['init']))
+    try:
+        iv = init(t, g['init'])
+        defn = ('%s %s[VERIF_NTHREADS] = { %s };  /* thread_local: one copy per modelled thread */' % (ct, cn, ', '.join([iv] * 2))) if tl else ('%s %s = %s;' % (ct, cn, iv))
     finally: em.in_global_init = False
     return decl, defn
 
@@ -951,6 +957,8 @@ PRELUDE = r'''
 #include <stdlib.h>
 #include "verif_rt.h"
 #include "verif_arith.h"
+#define VERIF_NTHREADS 2
+extern int __verif_tid;      /* the modelled thread that is running (thread_local globals are arrays indexed by it); harnesses switch it between calls */
 '''
 
 def main():
